@@ -1340,6 +1340,10 @@ func (fc *FnCtx) eltRefNamed(base, idx string) string {
 
 // isCancelFunc: v is the CancelFunc result of context.WithCancel / WithTimeout / WithDeadline.
 func isCancelFunc(v ssa.Value) bool {
+	// a value of the named type context.CancelFunc (e.g. a struct field holding the cancel function of a request)
+	if n, ok := v.Type().(*types.Named); ok && n.Obj().Pkg() != nil && n.Obj().Pkg().Path() == "context" && n.Obj().Name() == "CancelFunc" {
+		return true
+	}
 	ex, ok := v.(*ssa.Extract)
 	if !ok {
 		return false
